@@ -54,7 +54,21 @@ def exp(x):
 
 
 def log(x):
-    cur().trusted.add("jnp.log (uninterpreted; ground lemma instances of Mathlib facts)")
+    ctx = cur()
+    ctx.trusted.add("jnp.log (uninterpreted; ground lemma instances of Mathlib facts)")
+    xa = asarray(x)
+    from ..values import NAN, NINF, PINF
+
+    if xa.ndim == 0:
+        e = _to_real(xa.get(()))
+        if any(z3.eq(e, c) for c in (NAN, NINF, PINF)):
+            ctx.prove("log-of-non-finite", z3.BoolVal(False), "safety")
+        else:
+            # jnp.log of a non-positive number is nan / -inf: outside the real-valued model
+            ctx.prove_then_assume("log-of-non-positive", e > 0, "safety")
+    else:
+        I = [z3.Int(ctx.fresh("lg")) for _ in range(xa.ndim)]
+        ctx.prove_then_assume("log-of-non-positive", _forall(I, z3.Implies(inrange(xa.zshape, I), _to_real(xa.get(tuple(I))) > 0), dims=list(xa.zshape)), "safety")
     return elementwise((x,), lambda e: _LOG(_to_real(e)), "float")
 
 
@@ -71,6 +85,11 @@ def linspace(start, stop, num):
     ctx = cur()
     a, b = _to_real(lift(start)), _to_real(lift(stop))
     n = zdim(num)
+    from ..values import NAN, NINF, PINF
+
+    if any(z3.eq(v, c) for v in (a, b) for c in (NAN, NINF, PINF)):
+        # non-finite bounds give nan/inf entries: outside the real-valued model, reported as a failure
+        ctx.prove("linspace-non-finite-bounds", z3.BoolVal(False), "safety")
     ctx.trusted.add("jnp.linspace(a, b, n)[i] = a + i (b - a)/(n - 1)")
 
     def get(idx):
